@@ -1,0 +1,42 @@
+//go:build verif
+
+package server
+
+import (
+	"context"
+	"net"
+)
+
+// Verification hooks (build tag `verif`). With the tag off (verif_off.go) every hook is an empty
+// inlinable function. The hook variables are set by test harnesses before the server starts.
+const verifEnabled = true
+
+var (
+	// VerifDialHook replaces the outgoing TCP dial of connectLoop: handled=false falls through to
+	// the real dial; handled=true with a nil conn means "connection failed, retry later".
+	VerifDialHook func(ctx context.Context, addr string, port int) (conn net.Conn, handled bool)
+	// VerifYieldHook is called at lock-free points ("recv", "send", "serve") so that a test
+	// scheduler can diversify or steer interleavings.
+	VerifYieldHook func(site string, peer string)
+	// VerifTraceHook is called at linearization points, while the protecting lock is held.
+	VerifTraceHook func(ev string, peer string, arg any)
+)
+
+func verifDial(ctx context.Context, addr string, port int) (net.Conn, bool) {
+	if h := VerifDialHook; h != nil {
+		return h(ctx, addr, port)
+	}
+	return nil, false
+}
+
+func verifYield(site string, peer string) {
+	if h := VerifYieldHook; h != nil {
+		h(site, peer)
+	}
+}
+
+func verifTrace(ev string, peer string, arg any) {
+	if h := VerifTraceHook; h != nil {
+		h(ev, peer, arg)
+	}
+}
